@@ -187,4 +187,8 @@ Quiescent == /\ \A g \in Graphs : pc[g] \in {"top","pass"} => clean[g]
              /\ ~cancelled /\ NoCondErr /\ ~Finished
 QuiescentIsClosure == Quiescent => \A s \in Stages : CS(s) = status[s]
 Terminates == <>Finished
+\* With Nested = FALSE this module refines SchedFlat.tla (loop control hidden), whose safety
+\* theorems are proved for every number of stages with TLAPS.
+Flat == INSTANCE SchedFlat
+FlatRefinement == Flat!Spec
 =============================================================================
